@@ -6,4 +6,5 @@ export GOFLAGS=-mod=mod GOPROXY=off GOSUMDB=off GOTOOLCHAIN=local
 mkdir -p .build .work evidence
 cp /repo/go.sum harness/go.sum
 ( cd harness && go build -tags verif -o ../.build/vcheck . )
+( cd harness && go build -race -tags verif -o ../.build/vcheck-race . ) || echo "warning: race-detector build failed"
 echo "setup ok"
